@@ -60,6 +60,22 @@ structure IdIndex where
   index : Int
   deriving Repr, DecidableEq, Inhabited
 
+/-- An operation of a `CANIDBuilder` as the Go code stores it: the kind as the VALUE of the
+    `CANIDBuilderOpKind` constant, `from`, `len`. -/
+structure KOp where
+  kind : Int
+  from_ : Int
+  len : Int
+  deriving Repr, DecidableEq, Inhabited
+
+/-- `slices.Insert(s, i, v)`: panics unless `0 ≤ i ≤ len(s)`. -/
+def sliceInsert {α : Type} (l : List α) (i : Int) (v : α) : Res (List α) :=
+  if i < 0 ∨ (l.length : Int) < i then .panic else .val (l.insertIdx i.toNat v)
+
+/-- `slices.Delete(s, i, j)`: removes `s[i:j]`; panics unless `0 ≤ i ≤ j ≤ len(s)`. -/
+def sliceDelete {α : Type} (l : List α) (i j : Int) : Res (List α) :=
+  if i < 0 ∨ j < i ∨ (l.length : Int) < j then .panic else .val (l.take i.toNat ++ l.drop j.toNat)
+
 /-- A Go `any` (`interface{}`) value, tagged with its dynamic type, for the dynamic types the
     translator supports.  `float64`: only the FACT that a float64 is stored — its value is the
     result of genuine float arithmetic, which the translator does not translate. -/
